@@ -127,23 +127,41 @@ def fwdCmd (s : DState) (B : Nat) (x : List Int) : Option String :=
     some ("M " ++ showT (B :: s.outshape) (m.map flat3).flatten ++ " || S " ++ showT shape (sp.map flat3).flatten)
   | _ => none
 
+/-- SPEC of what the receptive views are for: the weight-shaped pairing `Σ_r post · pre` that the
+trainers compute by broadcasting the two views against each other (`B × weight.shape`). -/
+def outerSpec (s : DState) (B R' : Nat) (pre post : List Int) : List Int :=
+  let sum (n : Nat) (f : Nat → Int) : Int := (List.range n).foldl (fun a i => a + f i) 0
+  match s.kind with
+  | "direct" =>
+    (List.range (B * s.M)).map fun k => sum R' fun r => vget post k * vget pre (k * R' + r)
+  | "conv" =>
+    let g := s.g
+    (List.range (B * g.F * g.N)).map fun k =>
+      let n := k % g.N; let f := (k / g.N) % g.F; let b := k / (g.N * g.F)
+      sum g.L fun l => vget post ((b * g.F + f) * g.L + l) * vget pre (((b * g.N + n) * g.L + l) * R' + (if R' = 1 then 0 else f))
+  | _ =>
+    (List.range (B * s.Nn * s.M)).map fun k =>
+      let m := k % s.M; let n := (k / s.M) % s.Nn; let b := k / (s.M * s.Nn)
+      vget post (b * s.Nn + n) * vget pre ((b * s.M + m) * R' + (if R' = 1 then 0 else n))
+
 def recvCmd (s : DState) (B R : Nat) (pre post : List Int) : Option String :=
   let R' := if R = 0 then 1 else R
   let fmt (p q : List Nat × List Int) (wshape : List Nat) : String :=
     let bc := match bcast (inner q.1) (inner p.1) with
       | some r => if r = wshape then "ok" else showShape r
       | none => "incompatible"
-    "M pre=" ++ showT p.1 p.2 ++ " post=" ++ showT q.1 q.2 ++ " || S wshape=" ++ showShape wshape ++ " bc=" ++ bc
+    "M pre=" ++ showT p.1 p.2 ++ " post=" ++ showT q.1 q.2 ++ " || S wshape=" ++ showShape wshape ++ " bc=" ++ bc ++
+      " outer=" ++ showT (B :: wshape) (outerSpec s B R' pre post)
   match s.kind with
   | "dense" | "lateral" =>
-    if pre.length ≠ B * s.M * R' || post.length ≠ B * s.Nn then none else
+    if pre.length ≠ B * s.M * R' || post.length ≠ B * s.Nn || (R' ≠ 1 && R' ≠ s.Nn) then none else
     some (fmt (presynDense B s.M R' pre) (postsynDense B s.Nn post) [s.Nn, s.M])
   | "direct" =>
     if pre.length ≠ B * s.M * R' || post.length ≠ B * s.Nn then none else
     some (fmt (presynDirect B s.M R' pre) (postsynDirect B s.Nn post) [s.M])
   | "conv" =>
     let g := s.g
-    if pre.length ≠ B * g.N * g.L * R' || post.length ≠ B * g.F * g.L then none else
+    if pre.length ≠ B * g.N * g.L * R' || post.length ≠ B * g.F * g.L || (R' ≠ 1 && R' ≠ g.F) then none else
     some (fmt (presynConv g B R' pre) (postsynConv g B post) [g.F, g.C, g.KH, g.KW])
   | _ => none
 
